@@ -126,7 +126,9 @@ def r_oid(rnd: random.Random) -> str:
 def r_control(rnd: random.Random) -> t.Any:
     import sansldap as s
 
-    k = rnd.randrange(6)
+    k = rnd.randrange(7)
+    if k == 6:   # a flag control the way another implementation may send it: with a controlValue
+        return s.LDAPControl(rnd.choice(("1.2.840.113556.1.4.417", "1.2.840.113556.1.4.2065")), rnd.random() < 0.5, rnd.choice((b"", b"x", b"\x30\x00")))
     if k == 0:
         return s.PagedResultControl(critical=rnd.random() < 0.5, size=r_int(rnd), cookie=r_bytes(rnd))
     if k == 1:
